@@ -130,6 +130,34 @@ Proof.
     apply wb_sub_tail; autorewrite with blen; zfold; lia.
 Qed.
 
+(* what the individual accessors read from an emitted header followed by its payload
+   (used by the ICMPv4 model, which embeds an IPv4 header) *)
+Lemma ipv4_bytes_accessors tx r payload : (forall d, 0 <= sum_fill d < 65536) -> ipv4_wf r = true ->
+  blen payload = ipv4_payload_len r ->
+  let bs := ipv4_bytes tx r ++ payload in
+  ipv4_check_len bs = Ok tt /\ ipv4_header_len bs = Ok 20 /\
+  ipv4_src_addr bs = Ok (ipv4_src r) /\ ipv4_dst_addr bs = Ok (ipv4_dst r) /\
+  ipv4_next_header bs = Ok (ipv4_proto r) /\ ipv4_hop_limit_ bs = Ok (ipv4_hop_limit r).
+Proof.
+  intros Hrange Hwf Hpl.
+  pose proof (ipv4_ck_range tx r Hrange) as Hck.
+  apply ipv4_wf_inv in Hwf. destruct Hwf as (H1 & H2 & _ & _ & Hpr & Hh & Hp0 & Hp).
+  destruct r as [s d p pl h]; cbn [ipv4_src ipv4_dst ipv4_hop_limit ipv4_proto ipv4_payload_len] in *.
+  revert Hpl. cells H1. cells H2. intros Hpl.
+  revert Hck. unfold ipv4_bytes, ipv4_hdr, ipv4_HEADER_LEN.
+  match goal with |- context [ipv4_ck tx ?R] => generalize (ipv4_ck tx R) end.
+  cbn [ipv4_src ipv4_dst ipv4_hop_limit ipv4_proto ipv4_payload_len]. zfold.
+  intros ck. remember (20 + pl) as L eqn:HL. unfold be_enc2. cbn [app]. refold_tail payload. intros Hck.
+  cbv zeta.
+  unfold ipv4_check_len, ipv4_header_len, ipv4_total_len, ipv4_src_addr, ipv4_dst_addr, ipv4_next_header,
+    ipv4_hop_limit_, wb_get_u16, wb_field, ipv4_MINIMUM_IHL_BYTES. zfold.
+  autorewrite with blen. zfold. zbool.
+  hstep. zfold. zbool. hstep. rewrite (be_dec_cells2 L) by lia. zbool.
+  hstep. hstep. hstep. hstep.
+  unfold wb_arr. autorewrite with blen. zfold. zbool. cbn [obind].
+  repeat split; reflexivity.
+Qed.
+
 Lemma ipv4_roundtrip tx rx r b : ipv4_cksum_link -> ipv4_wf r = true -> (rx = true -> tx = true) ->
   blen b = ipv4_buffer_len r ->
   exists bs, ipv4_emit sum_fill tx r b = Ok bs /\ blen bs = ipv4_buffer_len r /\
